@@ -29,13 +29,16 @@ def run_script(case):
             elif step[0] == "slowread":
                 # ("slowread", query, step point, ms): the query runs in the background while every reader that
                 # reaches the step point is held there for ms milliseconds (a slow shard scan), then released
-                _, q, point, ms = step
+                _, q, point, ms = step[:4]
                 e.cmd(f"!park {point}")
                 e.cmd("!bg " + q)
                 parked = e.cmd(f"!wait_parked {point} 3000").get("parked")
                 e.cmd(f"!sleep {int(ms)}")
                 e.cmd(f"!release {point}")
                 r = engine.parse_stream(e.cmd("!join"))
+                if len(step) > 4:
+                    # a second step point (a parked flush) is released once the read is over
+                    e.cmd(f"!release {step[4]}"); e.cmd("!flushwait")
                 out.append({"status": r.get("status"), "rows": r.get("rows"), "message": r.get("message"), "error": r.get("error"),
                             "parked": parked})
             elif step[0] == "quiesce":
